@@ -133,6 +133,7 @@ Definition c03_check (c : c03_case) : bool :=
         match seen with H2SeenCallErr => negb same | _ => false end
       else
         match h2_exchange blocks hdr_end evs, seen with
+        | None, H2SeenCallErr => true     (* too many interim responses: the call fails *)
         | Some (d, e), H2SeenRead e' dlen pok =>
             Bool.eqb (if hdr_end then true else h2_conn_usable evs) same
             && match wire, final_block max_1xx blocks with
